@@ -32,7 +32,8 @@ type C13Case struct {
 	Mode     Mode        `json:"mode"` // ModeSJ ModeSS ModeLJ ModeLS ModeLegacy
 	CtxFuncs int         `json:"ctxfuncs"`
 	Clients  []C13Client `json:"clients"`
-	InPlace  bool        `json:"inplace"` // filters compact the slice they are handed in place (user code may)
+	InPlace  bool        `json:"inplace"`          // filters compact the slice they are handed in place (user code may)
+	Repeat   int         `json:"repeat,omitempty"` // every client runs its request list this many more times (bursts of concurrent lists)
 }
 
 func genC13(t *rapid.T) C13Case {
@@ -45,6 +46,9 @@ func genC13(t *rapid.T) C13Case {
 			cl.Reqs = append(cl.Reqs, C13Req{Kind: rapid.SampledFrom([]string{"call", "call", "listtools", "listtools", "listprompts", "listres"}).Draw(t, "kind"), Lat: rapid.IntRange(0, 4).Draw(t, "lat")})
 		}
 		c.Clients = append(c.Clients, cl)
+	}
+	if c.Mode != ModeLegacy && rapid.IntRange(0, 5).Draw(t, "burst") == 0 {
+		c.Repeat = rapid.SampledFrom([]int{20, 60}).Draw(t, "repeat")
 	}
 	return c
 }
@@ -239,7 +243,11 @@ func execC13(c C13Case) *Failure {
 		wg.Add(1)
 		go func(i int, cl C13Client) {
 			defer wg.Done()
-			for j, rq := range cl.Reqs {
+			reqs := cl.Reqs
+			for rep := 0; rep < c.Repeat; rep++ {
+				reqs = append(reqs, cl.Reqs...)
+			}
+			for j, rq := range reqs {
 				id := fmt.Sprintf(`"c%dr%d"`, i, j)
 				var body string
 				switch rq.Kind {
